@@ -10,7 +10,12 @@ ASSUMPTIONS = [
     "asyncio: a task runs until its next await; done-callbacks of a finished task run in registration order, "
     "after the task finished and with nothing else in between (the harness's marker callback, registered from inside the "
     "distribution task, therefore runs right after PowerDistributingActor._handle_task_completion)",
-    "frequenz.channels Broadcast delivers requests to the actor's receiver in send order",
+    "frequenz.channels Broadcast delivers requests to the actor's receiver in send order and keeps every unread message "
+    "up to the receiver's limit; PowerWrapper creates the request receiver with the default limit of 50, so the property's "
+    "'no request is lost' is checked for fewer than 50 unread requests (bursts of up to 45 back-to-back requests); beyond that "
+    "the channel documents that the oldest unread message is dropped with a warning",
+    "the `wrapper` stream builds the actor through the real PowerWrapper._start_power_distributing_actor with a stub connection "
+    "manager (a component graph that reports batteries); PowerWrapper.start()'s power MANAGING actor is not started",
     "restart of the receive loop (Actor restart after an unhandled exception in _run, or stop() followed by start()): the "
     "distribution tasks are plain asyncio tasks the service does not own, so they are not cancelled and their done-callbacks keep "
     "running; the channel receiver persists; requests sent while the loop is down are consumed after the restart, in order",
@@ -87,22 +92,44 @@ class C14Stream(D.DistStream):
             if a[0] == "S" and b[0] == "F" and a[1] == b[1] and last_exit.get(a[1]) != a[-1]:
                 V(f"prompt: waiting request {a[2]} of group {a[1]} started at t={a[-1]}us, the in-flight "
                   f"distribution had ended at t={last_exit.get(a[1])}us")
-        # (4) quiescent at the end of the drain: the request applied last is the one issued last
+        # (4) quiescent at the end of the drain: for every group the request applied last is the one ISSUED last
+        #     (issued = sent on the request channel, whether or not it ever reached the receive loop)
+        issued = {}
+        k = 0
+        for st_ in case["steps"]:
+            if st_[0] == "req":
+                k += 1
+                issued.setdefault(st_[1], []).append(k)
         for g, infl, pend in obs["final"]:
             if infl or pend is not None:
                 V(f"eventually: group {g} not quiescent after every distribution was released "
                   f"(in flight={infl}, pending={pend})")
-            elif arrived.get(g) and (not started.get(g) or started[g][-1] != arrived[g][-1]):
-                V(f"latest: the last request issued for group {g} is {arrived[g][-1]} but the last one applied is "
-                  f"{started.get(g, [None])[-1]}")
-        nreq = sum(1 for s in case["steps"] if s[0] == "req")
-        if sum(len(v) for v in arrived.values()) != nreq or not obs["alive"]:
-            V(f"harness: {nreq} requests sent, {sum(len(v) for v in arrived.values())} consumed, actor alive={obs['alive']}")
+            elif issued.get(g) and (not started.get(g) or started[g][-1] != issued[g][-1]):
+                lost = [r for r in issued[g] if r not in arrived.get(g, [])]
+                V(f"latest: the last request issued for group {g} is {issued[g][-1]} but the last one applied is "
+                  f"{started.get(g, [None])[-1]}" + (f" (requests {lost} of the group never reached the distributor)" if lost else ""))
+        if not obs["alive"]:
+            V("harness: the distributor actor is not running at the end of the schedule")
         return out
 
 
+class C14WrapperStream(C14Stream):
+    """Same replay and same oracle, but the actor, its request channel and its receiver are the ones the real
+    PowerWrapper builds (microgrid/_power_wrapper.py)."""
+    name = "wrapper"
+
+    def gen(self, rng, tier):
+        yield from D.wrapper_boundary_cases()
+        for _ in range(500 if tier == "quick" else 6000):
+            yield D.gen_wrapper_case(rng)
+
+    def key(self, case, obs):
+        k = super().key(case, obs)
+        return None if k is None else "w" + k + f"{case.get('warm')}/{case.get('mgr_start_ms')}"
+
+
 def streams():
-    return [C14Stream()]
+    return [C14Stream(), C14WrapperStream()]
 
 
 META = {
